@@ -66,22 +66,32 @@ def revertApply : Balances → List Posting → Except Err Balances
 /-- Second loop: some non-`world` account ends below zero. -/
 def anyOverdrawn (b : Balances) : Bool := b.any (fun e => decide (e.2 < 0) && e.1.1 != "world")
 
+/-- Timestamp of the revert transaction: `originalTransaction.Timestamp` when reverting
+    at the effective date, `*originalTransaction.RevertedAt` otherwise. -/
+def revertTimestamp (orig : Tx) (atEffectiveDate : Bool) : Except Err (Option Int) :=
+  if atEffectiveDate then .ok orig.timestamp
+  else match orig.revertedAt with
+    | none => .error .nilDeref
+    | some t => .ok (some t)
+
+/-- `originalTransaction.Reverse().WithTimestamp(ts)` with `Metadata = MarkReverts(input, id)`. -/
+def revertTxOf (orig : Tx) (inp : RevertInput) (ts : Option Int) (id : Nat) : Tx :=
+  { postings := reversePostings orig.postings, timestamp := ts, metadata := markReverts inp.metadata id }
+
 /-- `revertTransaction` between `store.RevertTransaction` and `store.CommitTransaction`:
     `orig` is the row the store returned (id and `reverted_at` set by the store),
     `balances` what `GetBalances(orig.InvolvedDestinations())` returned. -/
-def buildRevertTx (orig : Tx) (inp : RevertInput) (balances : Balances) : Except Err Tx := do
-  let rev := orig.reverse
-  let ts ← if inp.atEffectiveDate then pure orig.timestamp
-           else match orig.revertedAt with
-             | none => throw Err.nilDeref
-             | some t => pure (some t)
-  let id ← match orig.id with
-    | none => throw Err.nilDeref
-    | some i => pure i
-  let tx : Tx := { rev with timestamp := ts, metadata := markReverts inp.metadata id }
-  if inp.force then pure tx else
-  let b ← revertApply balances tx.postings
-  if anyOverdrawn b then throw Err.insufficientFunds else pure tx
+def buildRevertTx (orig : Tx) (inp : RevertInput) (balances : Balances) : Except Err Tx :=
+  match revertTimestamp orig inp.atEffectiveDate with
+  | .error e => .error e
+  | .ok ts =>
+    match orig.id with
+    | none => .error .nilDeref
+    | some id =>
+      if inp.force then .ok (revertTxOf orig inp ts id)
+      else match revertApply balances (reversePostings orig.postings) with
+        | .error e => .error e
+        | .ok b => if anyOverdrawn b then .error .insufficientFunds else .ok (revertTxOf orig inp ts id)
 
 /-- `tx.InvolvedDestinations()` as a flat sorted key list (destination, asset), deduplicated. -/
 def involvedDestinations (ps : List Posting) : List Key :=
